@@ -159,7 +159,7 @@ _POOL = None
 class C10(RProp):
     def generate(self, tier, rnd):
         n = 1000 if tier == "quick" else 100000
-        out = []
+        out = list(rgen.enumerate_small()) if tier != "quick" else []
         flat_profile = dict(self.profile, timeout=0.05, root_timeout=0.05, window=0.0, forever=0.03, never=0.0,
                             sdur=0.05, nested=0.55, crit=0.6)
         for i in range(n):
